@@ -172,6 +172,20 @@ def calls(fa_or_node, name: Optional[str] = None, canon: Optional[Canon] = None,
     return out
 
 
+def acting_calls(fa_or_node, into_lambdas: bool = True) -> List[C.Call]:
+    """The calls that can act on the program's state as this function sees it: a member call, or a call with at least one argument that is not a literal.
+    A free-function call whose arguments are all literals (a trace / log line) cannot touch the objects the function was handed; rules that demand
+    "exactly these calls" compare this list, so that adding a trace line is not a finding."""
+    out = []
+    for c in calls(fa_or_node, into_lambdas=into_lambdas):
+        if isinstance(c.fn, C.Member) or not isinstance(c.fn, C.Id):
+            out.append(c)
+            continue
+        if any(not isinstance(a, C.Lit) for a in c.args):
+            out.append(c)
+    return out
+
+
 def loops(fa_or_node, into_lambdas: bool = True) -> List[C.Node]:
     return find(fa_or_node, lambda x: isinstance(x, (C.For, C.RangeFor, C.While, C.DoWhile)), into_lambdas)
 
